@@ -249,6 +249,22 @@ def run(ctx):
         ctx.ob("R-SIB", ps, "column-gather-iff-not-row_only", pol == -1,
                "columns are permuted exactly when row_only is false" if pol == -1 else
                "the column gather is not governed by `not row_only`", cg[0][2])
+    # the vector branch permutes the entries of a 1-by-X or X-by-1 operand along its long axis.  For a 1-by-X MATRIX (2-D, one row) with row_only the
+    # long axis is the column axis, which row_only leaves alone: that case has to leave the branch unpermuted (F64: apply_channel on a
+    # one-column Choi matrix calls swap(phi.T, .., row_only=True))
+    vb = [n for n in walk_no_nested(ps.node) if isinstance(n, ast.If) and unparse(n.test) == "is_vec" and any(isinstance(x, ast.Return) for x in ast.walk(n))]
+    if vb:
+        hon = None
+        for t in ast.walk(vb[-1]):
+            if isinstance(t, ast.If) and any(isinstance(x, ast.Name) and x.id == "row_only" for x in ast.walk(t.test)):
+                for r_ in t.body:
+                    if isinstance(r_, ast.Return) and r_.value is not None and not any(isinstance(c_, ast.Call) and getattr(c_.func, "attr", getattr(c_.func, "id", "")) in
+                                                                                       ("transpose", "reshape", "permute_systems", "vec") for c_ in ast.walk(r_.value)):
+                        hon = t
+        ctx.ob("R-THREAD", ps, "vector branch: a one-row matrix with row_only is returned unpermuted", hon is not None,
+               "row_only is tested inside the vector branch and exits without a permutation" if hon is not None else
+               "the vector branch never looks at `row_only`: a 1-by-X matrix has its entries permuted along the COLUMN axis although only rows were to move -- "
+               "apply_channel(X, J) for a one-column Choi matrix J (a map on column vectors) then returns wrong values", vb[-1])
     for p in ("perm", "dim", "row_only", "inv_perm"):
         r_live(ctx, ps, p)
     r_effect_free(ctx, ps, ["input_mat", "perm", "dim"])
